@@ -74,6 +74,8 @@ def check_capture_summary(h, out, res, label=''):
             w = refmodels.wave_summary(out['c'][a:b, lane])
             if not w['terminated']: continue
             val = refmodels.value_before(w['entries'], T)
+            fin_ = [float(t) for t in w['entries'] if t > TMIN]
+            if any(fin_[j] >= fin_[j + 1] for j in range(len(fin_) - 1)): res.probe('nonmonotonic_output_captured')
             exp = [w['init'], w['eat'], w['lst'], w['final'], val, val]
             got = [s[3 + j, i, lane] for j in range(6)]
             names = ['initial value s[3]', 'earliest arrival s[4]', 'latest stabilisation s[5]', 'final value s[6]', 'capture value s[7]', 'sampled capture s[8]']
